@@ -185,6 +185,29 @@ func settle(d time.Duration, cond func() bool) {
 	}
 }
 
+// poolChurn cycles MOSN's buffer pools: IoBuffers and byte slices of assorted sizes (around the pool's size classes and
+// the connection's scratch sizes) are taken, filled with a marker and given back.  A buffer that the relay handed on while
+// the pool (or the read loop) still owns it would now carry the marker.
+var churnSizes = []int{1, 63, 64, 65, 127, 128, 129, 1000, 1023, 1024, 1025, 4095, 4096, 4097, 16384, 65535, 65536, 65537, 100000}
+
+func poolChurn(round int) {
+	var held []buffer.IoBuffer
+	for i, n := range churnSizes {
+		b := buffer.GetIoBuffer(n)
+		junk := bytes.Repeat([]byte{0xEE}, n)
+		b.Write(junk)
+		held = append(held, b)
+		if (i+round)%3 == 0 {
+			p := buffer.GetBytes(n)
+			copy(*p, junk)
+			buffer.PutBytes(p)
+		}
+	}
+	for _, b := range held {
+		buffer.PutIoBuffer(b)
+	}
+}
+
 func runScripted(e *env, ops []sop, connectFails bool) (*scriptedResult, error) {
 	res := &scriptedResult{}
 	rec := &evRec{}
@@ -229,7 +252,8 @@ func runScripted(e *env, ops []sop, connectFails bool) (*scriptedResult, error) 
 			res.events = append(res.events, evRead("D", r.data, r.err, w...))
 		}
 	}
-	for _, op := range ops {
+	for opi, op := range ops {
+		poolChurn(opi)
 		switch op.Op {
 		case "dread":
 			var rerr error
@@ -578,4 +602,112 @@ func runE2E(e *env, sp e2eSpec, r *Rng) (*e2eResult, error) {
 		res.events = append(res.events, evRead("U", nil, "eof"))
 	}
 	return res, nil
+}
+
+// ---------------------------------------------------------------------------------------------
+// part (c): several relayed connections through the SAME listener / filter factory at the same time: every session must
+// behave as if it were alone (no byte of one session in another one, nothing lost), whatever the others do
+
+type parSession struct {
+	Closer                   string `json:"closer"` // client | upstream | both
+	CLen                     int    `json:"client_bytes"`
+	ULen                     int    `json:"upstream_bytes"`
+	cSent, uSent, cGot, uGot []byte
+	Problem                  string `json:"problem,omitempty"`
+}
+
+func runParallel(e *env, r *Rng, p int) ([]*parSession, error) {
+	type pair struct {
+		cli net.Conn
+		up  *upConn
+		s   *parSession
+		rng *Rng
+	}
+	var pairs []*pair
+	for i := 0; i < p; i++ {
+		cli, err := net.DialTimeout("tcp", e.lnPlain, 2*time.Second)
+		if err != nil {
+			return nil, err
+		}
+		u := e.upPlain.next(stepLimit)
+		if u == nil {
+			cli.Close()
+			return nil, fmt.Errorf("upstream server saw no connection (parallel)")
+		}
+		s := &parSession{Closer: []string{"client", "upstream", "both"}[r.Intn(3)]}
+		s.cSent, s.uSent = streamBytes(r, 1+r.Intn(6000)), streamBytes(r, 1+r.Intn(6000))
+		if r.Pct(15) {
+			s.cSent = streamBytes(r, 60000+r.Intn(80000))
+		}
+		s.CLen, s.ULen = len(s.cSent), len(s.uSent)
+		pairs = append(pairs, &pair{cli: cli, up: u, s: s, rng: NewRng(r.U64())})
+	}
+	var wg sync.WaitGroup
+	for _, pr := range pairs {
+		wg.Add(1)
+		go func(pr *pair) {
+			defer wg.Done()
+			s := pr.s
+			var mu sync.Mutex
+			cDone := make(chan bool, 1)
+			go func() { cDone <- readAll(pr.cli, &s.cGot, &mu) }()
+			writeChunks := func(w io.Writer, b []byte, rg *Rng) {
+				for off := 0; off < len(b); {
+					n := 1 + rg.Intn(700)
+					if off+n > len(b) {
+						n = len(b) - off
+					}
+					if _, err := w.Write(b[off : off+n]); err != nil {
+						return
+					}
+					off += n
+				}
+			}
+			var ww sync.WaitGroup
+			ww.Add(2)
+			rg1, rg2 := NewRng(pr.rng.U64()), NewRng(pr.rng.U64())
+			go func() { defer ww.Done(); writeChunks(pr.cli, s.cSent, rg1) }()
+			go func() { defer ww.Done(); writeChunks(pr.up.c, s.uSent, rg2) }()
+			ww.Wait()
+			// each side waits for the other side's stream, then the closer(s) close
+			if !pr.up.waitLen(len(s.cSent), stepLimit) {
+				s.Problem = "the upstream did not receive the client's stream in time"
+			}
+			settle(stepLimit, func() bool { mu.Lock(); defer mu.Unlock(); return len(s.cGot) >= len(s.uSent) })
+			switch s.Closer {
+			case "client":
+				pr.cli.Close()
+			case "upstream":
+				pr.up.c.Close()
+			default:
+				var cw sync.WaitGroup
+				cw.Add(2)
+				go func() { defer cw.Done(); pr.cli.Close() }()
+				go func() { defer cw.Done(); pr.up.c.Close() }()
+				cw.Wait()
+			}
+			if !pr.up.waitDone(stepLimit) && s.Problem == "" {
+				s.Problem = "the upstream peer never saw the end of its connection"
+			}
+			select {
+			case <-cDone:
+			case <-time.After(stepLimit):
+				if s.Problem == "" {
+					s.Problem = "the client never saw the end of its connection"
+				}
+			}
+			mu.Lock()
+			s.cGot = append([]byte(nil), s.cGot...)
+			mu.Unlock()
+			s.uGot = pr.up.received()
+			pr.cli.Close()
+			pr.up.c.Close()
+		}(pr)
+	}
+	wg.Wait()
+	var out []*parSession
+	for _, pr := range pairs {
+		out = append(out, pr.s)
+	}
+	return out, nil
 }
